@@ -174,6 +174,25 @@ def check_full_reuse(ctx):
     ctx.expect(paths, ret=3)
 
 
+def check_recreate(ctx):
+    ctx.eng.max_strlen = 64
+    how = ctx.sym("how", 32)
+    ctx.assume(z3.ULE(how, 2))
+    paths = ctx.run("k_cb_recreate", [how])
+    for q in paths:
+        lg = q.user.get("log") or []
+        if q.status != "ret":
+            stage = "before re-creation" if not [e for e in lg if e[0] == 8] else ("while filling the table" if not [e for e in lg if e[0] == 13] else "in the new incarnation")
+            ctx.fail(q, "second incarnation of the sandbox object misbehaves %s: %s" % (stage, q.info))
+            continue
+        bodies = [(conc(e[1]), conc(e[2])) for e in lg if e[0] == 10]
+        st = [e for e in lg if e[0] == 15]
+        ctx.require(q, z3.BoolVal(bodies == [(0, 21), (1, 22)] and bool(st) and (conc(st[0][1]), conc(st[0][2]), conc(st[0][3])) == (0, 0, 1)),
+                    "after destroy+create the whole entry-point table is free, stale owners are inert, and new (also moved) owners register, dispatch and "
+                    "release normally (bodies %s)" % (bodies,))
+    ctx.expect(paths, ret=3)
+
+
 def jobs(tier, seed):
     depth = 3 if tier == "quick" else 4
     src = NOOP + '#include "C13_hist.inc"\n'
@@ -192,5 +211,8 @@ def jobs(tier, seed):
                        native=False, flags=["-D_GLIBCXX_EXTERN_TEMPLATE=0"]))
     fsrc = NOOP + '#include "C13_full.inc"\n'
     out.append(Job("C13_full", fsrc, [dict(name="65th registration", fn=check_full, unwind=400)], native=False))
+    out.append(Job("C13_recreate", fsrc, [dict(name="noop second incarnation", fn=check_recreate, unwind=400)], native=False))
+    out.append(Job("C13_dylib_recreate", DYLIB + '#include "C13_full.inc"\n', [dict(name="dylib second incarnation", fn=check_recreate, unwind=400)], native=False,
+                   flags=["-D_GLIBCXX_EXTERN_TEMPLATE=0"]))
     out.append(Job("C13_full_reuse", fsrc, [dict(name="registration after release on a full table", fn=check_full_reuse, unwind=400)], native=False))
     return out
